@@ -17,7 +17,8 @@ for f in sorted(glob.glob(os.path.join(HERE, "seeded", "*", "meta.json"))):
     what = (title.group(1) if title else "").strip().strip("*")
     what = re.sub(r"\s+", " ", what)[:150]
     own = m["breaks_property"] in m["caught_by"]
-    rows.append("| %s | %s | %s | %s |" % (m["id"], what.replace("|", "/"), ", ".join(m["caught_by"]) or "**none**",
+    partial = "" if m.get("checks_run", "all") == "all" else " (only %s run)" % m["checks_run"]
+    rows.append("| %s | %s | %s | %s |" % (m["id"], what.replace("|", "/"), (", ".join(m["caught_by"]) or "**none**") + partial,
                                          "yes" if own else ("by others only" if m["caught_by"] else "NO")))
 table = ["| seeded change | what it is (sub-agent's title) | quick checks that report a VIOLATION | caught by its own property's check |",
          "|---|---|---|---|"] + rows
